@@ -44,6 +44,9 @@ func globals() []globalVar {
 // far (in production each of them would have terminated the process).
 func LibraryGoroutinePanics() int { return int(zzsimrt.ChildPanics.Load()) }
 
+// libraryGoroutineTicks: yield sites passed so far by goroutines the library started.
+func libraryGoroutineTicks() uint64 { return zzsimrt.ChildTicks.Load() }
+
 func setClock(c func() time.Time)          { zzsimrt.Clock = c }
 func setSleep(h func(d time.Duration))     { zzsimrt.SleepHook = h }
 func setExit(h func(code int, msg string)) { zzsimrt.ExitHook = h }
